@@ -568,6 +568,19 @@ def debug_gates(index: RepoIndex, rep, rule: str, eff: Effects, rm=None) -> None
                 why = impure(e.node)
                 if why:
                     evs.append(('effect', f'call {src(e.node)} ({why})', g, e))
+            elif e.kind == 'attrload' and f.cls is not None:
+                # reading a property runs its getter: `self.observation` computes, memoises
+                # and (for a stochastic observation function) draws
+                pm = index.method(f.cls, e.node.attr)
+                if pm is not None and pm.is_property() and eff.qual(pm) in eff.funcs:
+                    ps_ = eff.summary(pm)
+                    why = ''
+                    if ps_.mut_params or (ps_.global_writes - {'_gv_debug', '_gv_rng'}):
+                        why = f'getter mutates {sorted(ps_.mut_params)}'
+                    elif rm is not None and rm.may_draw(pm, None, f):
+                        why = 'getter may draw random numbers'
+                    if why:
+                        evs.append(('effect', f'read of property {src(e.node)} ({why})', g, e))
         if w.fall is not None:
             # falling off the end returns None, like a bare `return`
             evs.append(('effect', 'return None', w.expand_formula(strip_iter(w.fall)), None))
